@@ -245,6 +245,14 @@ func (st *State) addCheck(c *Check) {
 			return
 		}
 	}
+	// a trusted contract is an assumption; only its structural clauses (neverreads, callsonly, cancellable) are checked
+	if len(st.frames) > 0 && st.frames[0].contract != nil && st.frames[0].contract.Trusted {
+		switch c.Kind {
+		case "cancellable", "callsonly", "vacuity":
+		default:
+			return
+		}
+	}
 	if c.Goal == "true" {
 		// trivially discharged; still counted
 		st.e.trivial = append(st.e.trivial, c)
